@@ -80,6 +80,16 @@ def classify(case, r, t, gid):
     return "+".join(sorted(kinds)) or "none", "+".join(ctx) or "plain", fixed, gen
 
 
+def strat_label(case):
+    """strategy name in violation keys; flex_window is split by its sub-strategy class (the balanced sub-strategy is the
+    one the properties name; greedy and needy share the peak-shaving passes)"""
+    st = case["strategy"]
+    if st == "flex_window":
+        return "flex_window:" + ("balanced" if case["options"].get("LOAD_STRAT", "balanced") == "balanced"
+                                 else "peak_shaving_passes")
+    return st
+
+
 def base_within(g, fixed, gen):
     """fixed load and generation alone (feed-in curtailed at the rating) respect the limit"""
     base = max(-g["max_power"], fixed - gen)
@@ -114,11 +124,21 @@ def check_c04(case, r):
                     who = "none" if max(am["cs"][d], am["bat"][d]) <= EPS else (
                         "vehicles" if am["cs"][d] >= am["bat"][d] else "batteries")
                     if strat == "peak_load_window":
-                        # its battery/vehicle planning differs inside and outside a peak-load window
-                        who += ":in_window" if g.get("window") else ":outside_window"
+                        # after the repairs PLW1/PLW2 one mechanism is left: the level accounted for the current step
+                        # is re-simulated from its own average, which is not the identity at NEGATIVE SoC (B14)
+                        pe = r["trace"][t].get("post_events")
+                        neg = pe is not None and any(
+                            vs["soc"] < 0 and vs["cs"] is not None and abs(dict(g["loads"]).get(vs["cs"], 0.0)) > EPS
+                            for vs in pe["vehicles"].values())
+                        who += ":negative_soc_resimulation" if neg else ""
+                    if strat == "flex_window" and strat_label(case).endswith("balanced") and load < 0 \
+                            and "cs_discharge" in kinds and "bat_discharge" in kinds and not g.get("window"):
+                        # the one mechanism the balanced sub-strategy is not proved free of (notes/S_FLEX_WINDOW.md, 3a):
+                        # outside a window the battery pass discharges after the V2G pass has already made the load negative
+                        who = "v2g_then_battery_discharge"
                     v.append(("strategy_respects_limit",
                               "C04:strategy_breaks_limit:%s:%s:%s" % (
-                                  strat, "draw" if load > 0 else "feedin", who),
+                                  strat_label(case), "draw" if load > 0 else "feedin", who),
                               "step %d %s: load %r limit %r (fixed %r, generation %r alone are within; "
                               "contributors %s (%s); context %s)" % (t, gid, load, lim, fixed, gen, kinds, who, ctx)))
     return v
@@ -177,7 +197,7 @@ def check_c05(case, r):
                 cmax = float(comp["charging_stations"][k]["max_power"]) * conc
                 direction = "charge" if load > 0 else "discharge"
                 if abs(load) > cmax + EPS:
-                    v.append(("station_limit", "C05:station_limit:%s:%s" % (strat, direction),
+                    v.append(("station_limit", "C05:station_limit:%s:%s" % (strat_label(case), direction),
                               "step %d %s: |%r| > %r" % (t, k, load, cmax)))
                 if abs(load) > EPS and not by_cs.get(k):
                     v.append(("only_connected", "C05:power_without_connected_vehicle:%s" % strat,
@@ -245,6 +265,14 @@ def check_c06(case, r):
             if not close(got, max(-g["max_power"], rep)):
                 v.append(("gc_sum", "C06:connector_power_not_sum_of_reported_components:%s" % strat,
                           "step %d %s: reported %r, reported components sum %r" % (t, gid, got, rep)))
+        # the step's commands name every station that carries power (reports read the commands)
+        cmds = r["results"][t]["commands"] if t < len(r.get("results", [])) else None
+        if cmds is not None:
+            for gid, g in tr["gcs"].items():
+                for k, x in g["loads"]:
+                    if k in cs_keys and abs(x) > EPS and not close(cmds.get(k, 0.0), x):
+                        v.append(("gc_sum", "C06:station_power_not_in_commands:%s" % strat,
+                                  "step %d %s: connector %s carries %r, command %r" % (t, k, gid, x, cmds.get(k))))
         if pre is None:
             continue
         # vehicles
